@@ -1433,6 +1433,14 @@ impl Reader {
   }
 } // impl Reader
 
+// Verification hook: read-only view of the matched set.
+#[cfg(rustdds_verif)]
+impl Reader {
+  pub(crate) fn verif_matched_writers(&self) -> Vec<GUID> {
+    self.matched_writers.keys().copied().collect()
+  }
+}
+
 impl HasQoSPolicy for Reader {
   fn qos(&self) -> QosPolicies {
     self.qos_policy.clone()
